@@ -830,7 +830,7 @@ func c10Report(c *Ctx) {
 				if k, ok := bo.Y.(*ssa.Const); ok && k.Value == nil && bo.X == closes[0].(*ssa.Call).Call.Value {
 					// from the true successor, Report is not reachable without Close
 					set := exploreBlock(f.If.Block().Succs[0], func(i ssa.Instruction) bool { return i == closes[0] })
-					okW = !set[reports[0]]
+					okW = !set[reports[0]] && instrDominates(f.If, reports[0])
 				}
 			}
 		}
@@ -1186,6 +1186,45 @@ func isRangeIndex(v ssa.Value) bool {
 				return check(phi)
 			}
 		}
+	}
+	return false
+}
+
+// rangeIndexValue: v is exactly the index variable of a counting loop starting
+// at 0 — φ[0, φ+1] (classic) or φ+1 with φ[-1, φ+1] (rotated range loop).
+func rangeIndexValue(v ssa.Value) bool {
+	switch x := v.(type) {
+	case *ssa.Phi:
+		start, inc := false, false
+		for _, e := range x.Edges {
+			if z, ok := constInt(e); ok && z == 0 {
+				start = true
+			}
+			if bo, ok := e.(*ssa.BinOp); ok && bo.Op == token.ADD && bo.X == ssa.Value(x) {
+				if one, ok := constInt(bo.Y); ok && one == 1 {
+					inc = true
+				}
+			}
+		}
+		return start && inc
+	case *ssa.BinOp:
+		phi, ok := x.X.(*ssa.Phi)
+		if !ok || x.Op != token.ADD {
+			return false
+		}
+		if one, ok := constInt(x.Y); !ok || one != 1 {
+			return false
+		}
+		start, back := false, false
+		for _, e := range phi.Edges {
+			if m, ok := constInt(e); ok && m == -1 {
+				start = true
+			}
+			if e == ssa.Value(x) {
+				back = true
+			}
+		}
+		return start && back
 	}
 	return false
 }
